@@ -10,6 +10,8 @@
 (*                     of the strict parse of the maximal strictly parseable        *)
 (*                     prefix ending at or before the first error)                  *)
 (*   "same_tree"       C06 (b): fields ns, other                                    *)
+(*   "inert"           C13: the tree of the strictly parsed encoder output has no       *)
+(*                     comment, environment or math node                             *)
 (*   "modes"           C10: fields ns, textmacros, mathmacros, mathenvs             *)
 EXTENDS TreeProps, Modes, Json, IOUtils
 
@@ -31,6 +33,8 @@ Clauses ==
            [PrefixKept |-> PrefixKept(Tr.ns, Tr.tn)]
       [] Tr.kind = "same_tree" ->
            [SameTree |-> Tr.ns = Tr.other]
+      [] Tr.kind = "inert" ->
+           [Inert |-> Inert(Tr.ns)]
       [] Tr.kind = "modes" ->
            [Modes |-> ModesOK(Tr.ns, Tr.cfg)]
 Holds == \A f \in DOMAIN Clauses : Clauses[f]
